@@ -455,6 +455,14 @@ def run_threads(spec, acc):
     sys.setswitchinterval(old)
 
 
+@history.suspend_tracking()
+def _recursive_untracked_edit(cfg, depth):
+  """suspend_tracking used as a DECORATOR on a function that re-enters itself."""
+  cfg.a = ('untracked', depth)
+  if depth:
+    _recursive_untracked_edit(cfg, depth - 1)
+
+
 def run_helpers(spec, acc):
   """Edits made through helper files: a file registered with history.add_exclude_location is
   'internal' from then on - also when edits through it were already recorded before the
@@ -468,6 +476,21 @@ def run_helpers(spec, acc):
            'def set_index(cfg, i, value):\n  cfg[i] = value\n'
            'def add(cfg, name, tag):\n  import fiddle as fdl\n  fdl.add_tag(cfg, name, tag)\n')
     exec(compile(src, helper_file, 'exec'), ns)   # pylint: disable=exec-used
+    # decorator form of suspend_tracking, re-entered: afterwards tracking is on again
+    dcfg = fdl.Config(kinds.target3, 1)
+    n0 = sum(len(v) for v in dcfg.__argument_history__.values())
+    _recursive_untracked_edit(dcfg, rng.randint(0, 3))
+    n1 = sum(len(v) for v in dcfg.__argument_history__.values())
+    dcfg.b = 'tracked again'
+    n2 = sum(len(v) for v in dcfg.__argument_history__.values())
+    acc.obs('decorated_suspend_reentered')
+    if n1 != n0:
+      acc.violation('entry-added-while-suspended:decorator', f'{n1 - n0} entries', {'case': 'decorator'})
+    if not history.tracking_enabled() or n2 != n1 + 1:
+      acc.violation('tracking-not-restored-after-suspend:decorator-reentered',
+                    f'tracking_enabled()={history.tracking_enabled()}, the next edit added {n2 - n1} entries',
+                    {'case': 'decorator'})
+      history.set_tracking(True)
     cfg = fdl.Config(kinds.target3, 1)
     register_first = rng.random() < 0.3
     if register_first:
